@@ -1,24 +1,26 @@
-//! A flag that can be raised to wake a task.
+//! A flag that can be raised to wake tasks.
 //!
-//! Copied wholesale from <https://docs.rs/futures/latest/futures/task/struct.AtomicWaker.html>
-//! unfortunately not aware of crated version!
+//! Adapted from <https://docs.rs/futures/latest/futures/task/struct.AtomicWaker.html>, but keeping
+//! one waker per waiting task: flags are cloned (tickets are `Clone`, and every ticket shares the
+//! job's "gone" flag), so several tasks can be waiting on the same flag at once.
 
 use std::{
 	pin::Pin,
 	sync::{
 		atomic::{AtomicBool, Ordering::Relaxed},
-		Arc,
+		Arc, Mutex, PoisonError,
 	},
+	task::Waker,
 };
 
 use futures::{
 	future::Future,
-	task::{AtomicWaker, Context, Poll},
+	task::{Context, Poll},
 };
 
 #[derive(Debug)]
 struct Inner {
-	waker: AtomicWaker,
+	wakers: Mutex<Vec<Waker>>,
 	set: AtomicBool,
 }
 
@@ -34,7 +36,7 @@ impl Default for Flag {
 impl Flag {
 	pub fn new(value: bool) -> Self {
 		Self(Arc::new(Inner {
-			waker: AtomicWaker::new(),
+			wakers: Mutex::new(Vec::new()),
 			set: AtomicBool::new(value),
 		}))
 	}
@@ -45,7 +47,11 @@ impl Flag {
 
 	pub fn raise(&self) {
 		self.0.set.store(true, Relaxed);
-		self.0.waker.wake();
+		let wakers =
+			std::mem::take(&mut *self.0.wakers.lock().unwrap_or_else(PoisonError::into_inner));
+		for waker in wakers {
+			waker.wake();
+		}
 	}
 }
 
@@ -58,7 +64,12 @@ impl Future for Flag {
 			return Poll::Ready(());
 		}
 
-		self.0.waker.register(cx.waker());
+		{
+			let mut wakers = self.0.wakers.lock().unwrap_or_else(PoisonError::into_inner);
+			if !wakers.iter().any(|waker| waker.will_wake(cx.waker())) {
+				wakers.push(cx.waker().clone());
+			}
+		}
 
 		// Need to check condition **after** `register` to avoid a race
 		// condition that would result in lost notifications.
